@@ -202,7 +202,7 @@ C05_Step ==
         /\ a = "tombstone" => Cell(didReg', d) = Cell(didReg, d)
         /\ a = "active"    => b \in {"active", "tombstone"}
         /\ (a = "active" /\ Cell(didReg', d) # Cell(didReg, d)) =>
-              \E i \in MsgIdx(act') : act'.tx.msgs[i].type \in {"did.Update", "did.Deactivate"} /\ act'.tx.msgs[i].did = d
+              (IsDeliver(act') /\ \E i \in MsgIdx(act') : act'.tx.msgs[i].type \in {"did.Update", "did.Deactivate"} /\ act'.tx.msgs[i].did = d)
         /\ a = "absent"    => b \in {"absent", "active"} \/ DidTouched(act', d)
 
 C05_View(v) ==
@@ -244,8 +244,8 @@ C06_Step ==
     \* ownership of a denom changes only through a hand-over by the owner
     /\ \A id \in DOMAIN pnDenoms \cap DOMAIN pnDenoms' :
           pnDenoms'[id].owner # pnDenoms[id].owner =>
-             \E i \in MsgIdx(act') : LET m == act'.tx.msgs[i] IN
-                 m.type \in {"pnft.TransferDenom", "pnft.DeleteDenom"} /\ m.id = id
+             (IsDeliver(act') /\ \E i \in MsgIdx(act') : LET m == act'.tx.msgs[i] IN
+                 m.type \in {"pnft.TransferDenom", "pnft.DeleteDenom"} /\ m.id = id)
     \* tokens are minted only by the denom's owner, transferred or burned only by their owner
     /\ \A k \in DOMAIN pnTokens \cup DOMAIN pnTokens' :
           (k \notin DOMAIN pnTokens \/ k \notin DOMAIN pnTokens' \/ pnTokens'[k] # pnTokens[k]) =>
